@@ -226,6 +226,71 @@ def run(tier):
         chk.fail_inconclusive('idempotence: vacuous')
     chk.obligation(f'every text <= {NI} chars, every stripped piece [a,b): splitting the piece again gives exactly one statement (two-run query)',
                    'E1 o E2 / z3 (two model instances)', nq, nd, ss, wall_s=round(time.time() - t0, 1), reachable_pairs=reach)
+    # ---- token level: a new statement always starts from the initial splitter state -----------------
+    from .. import splitsmt
+    t0 = time.time()
+    sp = splitsmt.SplitTheta()
+    n = 12 if tier == 'quick' else 20
+    U = sp.unroll(n)
+    init = sp.model.init()
+    s = z3.SolverFor('QF_BV')
+    s.add(*U.cons)
+    diffs = []
+    for i in range(n):
+        st_fresh, _ = sp.model.step(init, U.toks[i])
+        keys = [k for k in st_fresh if k in U.states[i]]
+        diffs.append(z3.And(U.flush[i], z3.Or(*[U.states[i][k] != st_fresh[k] for k in keys])))
+    s.push()
+    s.add(z3.Or(*U.flush))
+    twin = s.check()
+    s.pop()
+    s.add(z3.Or(*diffs))
+    r = s.check()
+    if twin != z3.sat:
+        chk.fail_inconclusive('token-level reset: vacuous')
+    if r == z3.sat:
+        ids = U.ids(s.model())
+        text = sp.render(ids)
+        why = pieces_ok(text)
+        # the state difference must be made visible: extend the script is not attempted here
+        if why:
+            chk.report('split:state-survives-statement-boundary', f'{text!r}: {why}', dict(input=text, why=why, observed=sqlparse.split(text)))
+        else:
+            # make the stale state visible: ask for a script in which a later statement splits
+            # differently in context than when re-run alone from the initial state
+            s2 = z3.SolverFor('QF_BV')
+            s2.set('timeout', 300000)
+            s2.add(*U.cons)
+            vis = []
+            for i in range(1, n - 1):
+                st_i = init
+                for j in range(i, n):
+                    st_i, info = sp.model.step(st_i, U.toks[j])
+                    fl = z3.Or(*[y[1] for y in info['yields']]) if info['yields'] else z3.BoolVal(False)
+                    if j > i:
+                        vis.append(z3.And(U.flush[i], fl != U.flush[j], z3.Not(sp.cls(U.toks[j], splitsmt.INSIG))))
+            s2.add(z3.Or(*vis))
+            found = None
+            for _ in range(12):
+                if s2.check() != z3.sat:
+                    break
+                ids2 = U.ids(s2.model())
+                t2 = sp.render(ids2)
+                w2 = pieces_ok(t2)
+                if w2:
+                    found = (t2, w2)
+                    break
+                s2.add(z3.Or(*[t != i for t, i in zip(U.toks, ids2)]))
+            if found:
+                chk.report('split:state-survives-statement-boundary', f'{found[0]!r}: {found[1]}',
+                           dict(input=found[0], why=found[1], observed=sqlparse.split(found[0]),
+                                reproduce=f"cd /repo && /venv/bin/python -c \"import sqlparse; p=sqlparse.split({found[0]!r}); print(p, [sqlparse.split(x) for x in p])\""))
+            else:
+                chk.fail_inconclusive(f'token-level reset: splitter state after a statement boundary differs from the initial state on {text!r} but no public-API consequence was reproduced')
+    elif r != z3.unsat:
+        chk.fail_inconclusive(f'token-level reset: {r}')
+    chk.obligation(f'token level (n={n}): whenever a statement is emitted, the splitter continues exactly as from its initial state (basis of re-split idempotence for long scripts)',
+                   'E2 py2smt / z3 QF_BV', 2, (1 if twin == z3.sat else 0) + (1 if r == z3.unsat else 0), time.time() - t0, theta=sp.K)
     # split == parse (real entry points, symbolic lexeme choice) -- CrossHair
     res = chrun.run_jobs([chrun.Job(os.path.join(ROOT, 'vf/ch/splitparse.py'), 'split_eq_parse', 200 if tier == 'quick' else 600,
                                     subst={'NLEX = 3': 'NLEX = 3' if tier == 'quick' else 'NLEX = 4'})])
